@@ -83,6 +83,12 @@ chk("C18", "enum",
     "Reading D11; two value variants per kind; nested structs judged per sub-property.",
     "DESIGN.md §3 C18")
 
+chk("C20", "enum",
+    "complete enumeration of the helper x nil-kind x position matrix on the implementation, one isolated execution per cell",
+    "Every helper of an audited table (~95 entries: predicates, ItemsEqual, On*/To*, generic On/To, Flatten*, CleanRecipients, DerefItem, ItemOrderTimestamp, CopyItemProperties, CollectionPath, encoders and JSON item writers, container Contains/Append/Remove/ItemsMatch) x 15 nil kinds x 5 positions is executed; no panic, the stated answers of the predicates, nil callbacks at the top position.",
+    "The helper table is hand-written and audited against the current tree's AST on every run (gaps listed in the evidence); type-specific Equals methods are outside the stated helper families.",
+    "DESIGN.md §3 C20")
+
 manifest = {
     "version": 1,
     "setup_cmd": "./setup.sh",
